@@ -122,7 +122,7 @@ func (r *recPods) List() ([]*v1.Pod, error) {
 		// the recorded view is what the watch delivered (pristine), not the shared objects the controller holds
 		gs.Pods = make([]*v1.Pod, 0, len(pods))
 		for _, p := range pods {
-			if pp := w.kube.pristinePod(p.Name); pp != nil {
+			if pp := w.kube.pristinePod(p); pp != nil {
 				gs.Pods = append(gs.Pods, pp)
 			} else {
 				gs.Pods = append(gs.Pods, p.DeepCopy())
@@ -141,7 +141,7 @@ func (r *recNodes) List() ([]*v1.Node, error) {
 		w.gscan.NodesListed = true
 		w.gscan.Nodes = make([]*v1.Node, 0, len(nodes))
 		for _, n := range nodes {
-			if pn := w.kube.pristineNode(n.Name); pn != nil {
+			if pn := w.kube.pristineNode(n); pn != nil {
 				w.gscan.Nodes = append(w.gscan.Nodes, pn)
 			} else {
 				w.gscan.Nodes = append(w.gscan.Nodes, n.DeepCopy())
